@@ -8,3 +8,9 @@ package commodity
 //@   trusted
 //@   modifies as.index[*]
 //@   ensures result.1 == nil ==> result.0 != nil
+//
+// Compare: the order of the names; ties only between commodities of the same name.
+//@ def comCmp(a *Commodity, b *Commodity) int := a.name < b.name ? 0 - 1 : (a.name == b.name ? 0 : 1)
+//@ func Compare
+//@   requires c1 != nil && c2 != nil
+//@   ensures [C06] [C05] @lex: result == comCmp(c1, c2)
